@@ -1071,15 +1071,23 @@ func (c *Catalogue) buildShared(in *Inst, env *Env, r *Rng) {
 				func() {
 					defer func() {
 						if p := recover(); p != nil {
-							if vsimrt.IsAbort(p) || vsimrt.IsRunaway(p) {
+							if vsimrt.IsAbort(p) {
 								panic(p)
+							}
+							if vsimrt.IsRunaway(p) {
+								// one helper that does not terminate on this IE (C14 territory)
+								// must not cost the other helpers their co-visits
+								out = append(out, "<yield budget exceeded>")
+								return
 							}
 							out = append(out, fmt.Sprint("panic:", p))
 						}
 					}()
+					vsimrt.ArmLimit(60000)
 					out = append(out, ifaces(j.f.Call([]reflect.Value{j.arg}))...)
 				}()
 			}
+			vsimrt.ArmLimit(0)
 			return out
 		}
 	}
